@@ -30,6 +30,10 @@ def emb_w(m, r):
     return ((m + r) % 2) + 1
 
 
+def tw(i, r, c):
+    return ((i + 2 * r + 3 * c) % 5) - 2
+
+
 def shape_of(s):
     return tuple(int(v) for v in s)
 
@@ -98,6 +102,24 @@ def mk(q):
         n, m = int(np.prod(shape)) if shape else 1, int(np.prod(cs)) if cs else 1
         W = np.array([[cw(q["id"], kk, mm) for mm in range(m)] for kk in range(n)], dtype=float)
         return bj.AdditiveCondition(LinearInt(jnp.asarray(W), shape), shape, cs)
+    if k in ("tril", "triu"):
+        # the constructor's own parameterisation (mask applied at unwrap, the other triangle filled with values that must
+        # be ignored); only the softplus-reparameterised diagonal is replaced by exact powers of two
+        n = shape_of(q["shape"])[0]
+        M = np.full((n, n), 7.0)
+        for i in range(n):
+            for j in range(n):
+                if (j < i) if k == "tril" else (j > i):
+                    M[i, j] = tw(q["id"], i, j)
+        loc = np.array([aff_b(q["id"], i) for i in range(n)], dtype=float)
+        ta = bj.TriangularAffine(jnp.asarray(loc), jnp.eye(n), lower=(k == "tril"))
+        # the matrix is set after construction, as training would: a mask applied only in the constructor is not enough
+        diag = np.array([2.0 ** aff_e(q["id"], i) for i in range(n)])
+        try:
+            return eqx.tree_at(lambda t: (t.triangular.kwargs["diag"], t.triangular.kwargs["arr"]), ta, (jnp.asarray(diag), jnp.asarray(M)))
+        except Exception:  # noqa: BLE001   the parameterisation is an implementation detail; the documented way is to replace .triangular
+            T = (np.tril(M, -1) if k == "tril" else np.triu(M, 1)) + np.diag(diag)
+            return eqx.tree_at(lambda t: t.triangular, ta, jnp.asarray(T))
     if k == "perm":
         shape = shape_of(q["shape"])
         n = int(np.prod(shape)) if shape else 1
